@@ -17,7 +17,7 @@ TRUSTED = ["Qt semantics: QList range-for iterates begin->end; QList::append app
 ASSUMPTIONS = ["user-supplied handlers (FunctionHandler, custom subclasses) are opaque: they may do anything to the message they are given"]
 NOT_DECIDED = ["behaviour of user-supplied handlers"]
 
-TECHNIQUE = "CFG path rules (must-pass / dominance projected on one boolean) + resolved-callee and field-writer enumeration over the clang AST; who-may-call rule on the builder methods (end-append only); list forms of append take every element"
+TECHNIQUE = "CFG path rules (must-pass / dominance projected on one boolean) + resolved-callee and field-writer enumeration over the clang AST; who-may-call rule on the builder methods (end-append only); list forms of append take every element; a pipeline passed by value is handed on whole (copy constructor, never rebuilt from handlers()); the asynchronous hand-off does not move from the caller's message"
 LEVEL_TEXT = ("All paths of the one evaluator function and the four adapters are decided against the sequential semantics, clause by clause; "
               "this covers every pipeline tree and message because the code is tree-independent. It is a structural decision of the library code, not a proof about user handlers.")
 LEVEL_NOTE = "trusts clang's AST/CFG, the extractor, Qt container semantics listed in the evidence; user-supplied handlers are opaque"
